@@ -246,7 +246,24 @@ fn oracle_c10(ctx: &mut Ctx, c: TextCmd, a: &str, b: &str, imp: &str, op: &str) 
     }
 }
 
+thread_local! {
+    static OFFSET: std::cell::Cell<usize> = const { std::cell::Cell::new(0) };
+}
+
 fn eval_text(ctx: &mut Ctx, c: TextCmd, a: &str, b: &str) {
+    // the arguments are handed over as sub-slices of larger strings, at a rotating offset 0..7 from the
+    // start of the allocation: what the builder emits must not depend on where in memory the text lies
+    // (word-at-a-time scanners treat the bytes in front of the first word boundary separately)
+    let k = OFFSET.with(|o| {
+        let v = o.get();
+        o.set((v + 1) % 8);
+        v
+    });
+    let abuf = format!("{}{}", &"ppppppp"[..k], a);
+    let bbuf = format!("{}{}", &"ppppppp"[..(k + 3) % 8], b);
+    let a = &abuf[k..];
+    let b = &bbuf[(k + 3) % 8..];
+    ctx.log.count(&format!("c10:offset{}", k));
     let imp = run_text(c, a, b);
     let op = if two_args(c) {
         format!("text {} {} {}", text_name(c), harg(a.as_bytes()), harg(b.as_bytes()))
@@ -800,6 +817,36 @@ fn run_c14_random(ctx: &mut Ctx, rng: &mut Rng, thorough: bool, shards: usize) {
     }
 }
 
+/// message sets of hundreds and thousands of elements (a counter of the element number that is narrower than
+/// the set is long shows only here); the last call asks for one attribute
+fn run_c14_long(ctx: &mut Ctx, rng: &mut Rng, thorough: bool, shard: usize, shards: usize) {
+    let mut lens: Vec<usize> = vec![127, 128, 129, 254, 255, 256, 257, 258, 300, 511, 512, 513, 1000, 1025];
+    if thorough {
+        lens.extend([4096, 32767, 32768, 32769, 65535, 65536, 65537, 70000]);
+    }
+    for (i, n) in lens.into_iter().enumerate() {
+        if i % shards != shard {
+            continue;
+        }
+        for variant in 0..3 {
+            let uid = variant == 1;
+            let mut calls = vec![];
+            for j in 0..n {
+                let c = match (variant, rng.below(6)) {
+                    (2, 0) => Call::Range(num32(rng), num32(rng)),
+                    (2, 1) if j + 1 == n => Call::RangeFrom(num32(rng)),
+                    (2, _) => Call::Num(num32(rng)),
+                    _ => Call::Num((j as u32) * 3 + 1),
+                };
+                calls.push(c);
+            }
+            calls.push(Call::Attr(rng.usize(11)));
+            eval_chain(ctx, uid, &calls);
+            ctx.log.count("c14:long-chain");
+        }
+    }
+}
+
 fn run_c14_rest(ctx: &mut Ctx, shard: usize) {
     // the other commands: CHECK, CLOSE (SELECT/EXAMINE/LOGIN/LIST are judged by C10's lexer as well)
     if shard == 0 {
@@ -864,7 +911,10 @@ fn main() {
                     let un = |h: &str| String::from_utf8(if h == "-" { vec![] } else { vh_proto::prng::unhex(h) }).unwrap();
                     let a = un(toks[2]);
                     let b = if toks.len() > 3 { un(toks[3]) } else { "x".to_string() };
-                    eval_text(&mut ctx, c, &a, &b);
+                    // the recorded case may depend on where the text lay in memory: replay it at all 8 offsets
+                    for _ in 0..8 {
+                        eval_text(&mut ctx, c, &a, &b);
+                    }
                     println!("{} -> {}", line, run_text(c, &a, &b));
                 }
                 "fetch" => {
@@ -910,7 +960,10 @@ fn main() {
                 let mut rng = Rng::new(seed.wrapping_mul(1000003).wrapping_add(shard as u64));
                 match prop.as_str() {
                     "C10" => run_c10(&mut ctx, &mut rng, thorough, shard, shards),
-                    "C14" => run_c14(&mut ctx, &mut rng, thorough, shard, shards),
+                    "C14" => {
+                        run_c14(&mut ctx, &mut rng, thorough, shard, shards);
+                        run_c14_long(&mut ctx, &mut rng, thorough, shard, shards);
+                    }
                     _ => {}
                 }
                 // directed passes: one per constant of /repo's sources that the baseline does not have
